@@ -158,6 +158,11 @@ def run(chk, S: Session):
     r6 = chk.rule("R-C05-6", "checkpoints closer than eps, equal ones included: the transition from the left bracket to the checkpoint has positive length on every path that interpolates "
                   "beyond the checkpoint (the preconditioner holds dt^-k)", floor=9)
     c06.zero_length_interpolation_rules(S, r6)
+    # an option passed to a constructor arrives in the attribute of its own name (the rules above read options through those attributes)
+    from .ctor_wiring import ctor_wiring_rules
+
+    rcw = chk.rule("R-C05-W", "constructor wiring of the rejection loop: every attribute that carries a constructor parameter's name holds that parameter, not another one", floor=5)
+    ctor_wiring_rules(chk, S, rcw, [ADAPT + ".RejectionLoop"])
 
 def terminal_rules(chk, S, r3):
     it = S.interp()
